@@ -1,6 +1,7 @@
 """C09 — NSEC3 denial of existence: entry sanity checks, the guard set of every Secure yield
 (RFC 5155 8.4-8.8), the cover test in normal form incl. wrap-around, authenticated inputs."""
 import re
+import helpers
 from api import shorten
 
 EXPLANATION = (
@@ -191,3 +192,6 @@ def auth_filter(cx, rule, variant):
             okp = okp or holds
         cx.check(rule, okp, g.path, 'inner-predicate', 'same-owner-and-secure', f'{len(inner)} inner closures')
     cx.check(rule, found == 1, V + '*', 'filters', 'authenticated-filter-present', f'{found} {variant} filters')
+
+    # ---------------------------------------------------------------- H helper semantics the guards above rely on (rules/helpers.py)
+    helpers.check(cx, 'C09.H', ['Name::zone_of', 'Name::base_name', 'RecordTypeSet::contains', 'NSEC3::type_set'])
